@@ -305,10 +305,6 @@ func (p *Proxy) Serve(l net.Listener) error {
 func (p *Proxy) handleLoop(conn net.Conn) {
 	start := time.Now()
 
-	// The address is not evaluated in the accept loop, for a PROXY protocol
-	// connection it blocks until the header is read.
-	log.Debug(context.TODO(), "accepted connection", "address", conn.RemoteAddr().String())
-
 	p.connsMu.Lock()
 	p.conns[conn] = struct{}{}
 	p.connsWg.Add(1)
@@ -321,6 +317,12 @@ func (p *Proxy) handleLoop(conn net.Conn) {
 	}()
 	defer p.connsWg.Add(-1)
 	defer conn.Close()
+
+	// The address is not evaluated in the accept loop nor before the connection
+	// is registered, for a PROXY protocol connection it blocks until the header
+	// is read.
+	log.Debug(context.TODO(), "accepted connection", "address", conn.RemoteAddr().String())
+
 	if p.closing() {
 		return
 	}
